@@ -390,6 +390,11 @@ class Parser:
                 self.eat(";")
                 stmts.append(("let", name, mut, e, ann))
                 continue
+            if self.at("continue") and self.peek(1)[1] in (";", "}"):
+                self.i += 1
+                self.opt(";")
+                stmts.append(("continue",))
+                continue
             if self.at("break") and self.peek(1)[1] in (";", "}"):
                 self.i += 1
                 self.opt(";")
@@ -660,6 +665,9 @@ class Parser:
                         raise Unsupported("match arm separator")
             self.eat("}")
             return ("match", s, arms)
+        if v in ("continue", "break") and self.peek(1)[1] in (",", ";", "}"):
+            self.i += 1
+            return ("block", [((v),)], None)      # `continue` / `break` in expression position (a match arm)
         if v == "|" or v == "||":
             params = []
             if v == "||":
@@ -676,9 +684,14 @@ class Parser:
                         params.append(tuple(names_))
                     else:
                         params.append(self.ident())
+                        if self.opt(":"):
+                            self.type_()          # `|x: T|`: the annotation is not needed (the call site fixes the type)
                     if not self.opt(","):
                         break
                 self.eat("|")
+            if self.opt("->"):
+                rt_ = self.type_()                # `|..| -> T { .. }`
+                return ("closure", params, self.expr(), rt_)
             return ("closure", params, self.expr())
         if k == "id":
             segs = [self.ident()]
@@ -742,6 +755,8 @@ class Parser:
             self.eat("(")
             n = self.ident()
             self.eat(")")
+            if self.opt("if"):
+                return ("some", n, self.expr(no_struct=True))     # `Some(x) if guard`
             return ("some", n)
         if segs == ["None"]:
             return ("none",)
@@ -776,6 +791,10 @@ class Parser:
 
 
 VTUPLE_ENUMS = set()
+
+
+HELPER_GETTERS = set()   # names of private generic helpers that are `storage().persistent().get(key)` + TTL bookkeeping
+OPAQUE_CONSTS = {}      # (Enum, Variant) of an enum kept as an opaque identifier -> (number, type)
 
 
 STRUCT_ALIAS = {}   # Rust struct name -> Lean structure name, where a storage key variant carries the struct's name
@@ -1287,6 +1306,9 @@ class Gen:
             # a side-effect-free getter of the contract's state: a field of the environment-reads record
             self.uses_reads = True
             return (f"envr.{e[1][1][1]}", self.reads[e[1][1][1]])
+        if e[0] == "path" and len(e[1]) == 2 and (e[1][0], e[1][1]) in OPAQUE_CONSTS:
+            n_, t_ = OPAQUE_CONSTS[(e[1][0], e[1][1])]
+            return (f"({n_} : Nat)", t_)
         if e[0] == "path" and e[1] == ["i128", "MAX"]:
             return (f"({2**127 - 1} : Int)", "i128")
         if e[0] == "path" and e[1] == ["i128", "MIN"]:
@@ -1450,6 +1472,11 @@ class Gen:
     def storage_get(self, e, env=None):
         """`e.storage().instance()/persistent()/temporary().get(&Key::Variant)` (optionally typed `get::<_, T>`)
         → the field `get_<Variant>` of the reads record, an `Option`"""
+        if e[0] == "call" and e[1][0] == "var" and e[1][1] in HELPER_GETTERS and len(e[2]) == 2 \
+                and self.strip(e[2][0]) in (("var", "e"), ("var", "_e")):
+            # a generic private helper `fn get_persistent_entry<T>(e, key) -> Option<T>` that is nothing but
+            # `e.storage().persistent().get(key)` plus TTL bookkeeping (declared per mode)
+            e = ("mcall", ("mcall", ("mcall", ("var", "e"), "storage", []), "persistent", []), "get", [e[2][1]])
         if e[0] == "mcall" and e[2] == "get" and len(e[3]) == 1:
             r = self.strip(e[1])
             if r[0] == "mcall" and r[2] in ("instance", "persistent", "temporary") and not r[3] \
@@ -1792,6 +1819,26 @@ class Gen:
                     return f"(Rounding.pick {s}\n {arms['Floor']}\n {arms['Ceil']}\n {arms['Truncate']})"
                 raise Unsupported(f"match on {st} with arms {sorted(arms)}")
             return self.tr(e[1], env, km, ret)
+        if kind == "call" and e[1][0] == "var" and ("$cl:" + e[1][1]) in env:
+            # a call of a local closure `let f = |x| { body }`: the body is expanded here with the parameters bound
+            # to the arguments (the closure captures immutable bindings only: its free variables keep their values)
+            cl_ = env["$cl:" + e[1][1]][0]
+            if len(cl_[1]) != len(e[2]):
+                raise Unsupported("closure call: arity")
+            got_ = []
+            def gocl2(j):
+                if j == len(e[2]):
+                    cenv = dict(env, **{p_: g_ for p_, g_ in zip(cl_[1], got_)})
+                    crt_ = cl_[3] if len(cl_) > 3 else "?closure"
+                    body_ = cl_[2]
+                    saved_rv = getattr(self, "ret_var", None)
+                    self.ret_var = body_[2][1] if (body_[0] == "block" and body_[2] is not None and body_[2][0] == "var") else None
+                    try:
+                        return self.tr_block(body_, cenv, k, crt_)
+                    finally:
+                        self.ret_var = saved_rv
+                return self.tr(e[2][j], env, lambda a, t: (got_.append((a, t)), gocl2(j + 1))[1], ret)
+            return gocl2(0)
         if kind == "call":
             f = e[1]
             if f[0] == "var" and isinstance(getattr(self, "reads", {}).get(f[1]), tuple) and self.reads[f[1]][0] == "fn" and (self.cur_ns, f[1]) not in self.sigs:
@@ -2055,7 +2102,57 @@ class Gen:
             return self.tr(real[i], env, ka, ret)
         return go(0)
 
+    MUTATORS = ("push_back", "push_front", "append", "extend_from_array", "remove", "pop_front", "pop_back", "set", "insert")
+
+    def deep_assigned(self, x, acc, lets):
+        """every local that an assignment or a mutating method call ANYWHERE inside `x` re-binds (closures excluded);
+        `lets` collects the names bound by `let` inside `x`"""
+        if isinstance(x, list):
+            for y in x:
+                self.deep_assigned(y, acc, lets)
+            return
+        if not isinstance(x, tuple) or not x:
+            return
+        if x[0] == "closure":
+            return
+        if x[0] in ("let", "letelse") and len(x) > 1 and isinstance(x[1], str):
+            lets.add(x[1])
+        if x[0] == "lettuple":
+            lets.update(n_ for n_ in x[1] if isinstance(n_, str))
+        if x[0] == "iflet" and isinstance(x[1], str):
+            lets.add(x[1])                                   # `if let Some(mut v) = ..`: local to the statement
+        if x[0] == "letsome" and isinstance(x[1], str):
+            lets.add(x[1])
+        if x[0] == "letstruct":
+            lets.update(vn_ for _, vn_ in x[2])
+        if x[0] == "for":
+            lets.update(x[1] if isinstance(x[1], tuple) else (x[1],))
+        if x[0] == "some" and len(x) >= 2 and isinstance(x[1], str):
+            lets.add(x[1])                                   # a `Some(x)` pattern binder
+        if x[0] == "assign":
+            l_ = self.strip(x[1])
+            while l_[0] == "field":
+                l_ = self.strip(l_[1])
+            if l_[0] == "var":
+                acc.add(l_[1])
+        if x[0] == "mcall" and len(x) == 4 and x[2] in self.MUTATORS:
+            r_ = self.strip(x[1])
+            while r_[0] == "field":
+                r_ = self.strip(r_[1])
+            if r_[0] == "var" and r_[1] not in ("e", "_e"):
+                acc.add(r_[1])
+        for y in x[1:]:
+            if isinstance(y, (tuple, list)):
+                self.deep_assigned(y, acc, lets)
+
     def assigned_vars(self, stmts, acc):
+        # what the structured scan below may miss (assignments inside match arms, nested blocks): a deep scan; a name
+        # it finds that is bound by a `let` inside the scanned statements is local to them
+        deep_, lets_ = set(), set()
+        self.deep_assigned(stmts, deep_, lets_)
+        for v_ in deep_ - lets_:
+            if v_ in getattr(self, "cur_env_names", set()) or True:
+                acc.add(v_)
         for st in stmts:
             if st[0] == "assign":
                 lhs = self.strip(st[1])
@@ -2084,7 +2181,7 @@ class Gen:
                             t_ = self.strip(t_[1])
                         if t_[0] == "var":
                             acc.add(t_[1])           # the place handed to a `&mut` parameter is re-bound
-            elif st[0] == "expr" and self.strip(st[1])[0] == "mcall" and self.strip(st[1])[2] in ("push_back", "append", "extend_from_array", "remove", "pop_front") \
+            elif st[0] == "expr" and self.strip(st[1])[0] == "mcall" and self.strip(st[1])[2] in ("push_back", "push_front", "append", "extend_from_array", "remove", "pop_front") \
                     and self.strip(self.strip(st[1])[1])[0] == "var":
                 acc.add(self.strip(self.strip(st[1])[1])[1])     # a growing collection is a re-bound variable
             elif st[0] == "expr" and self.strip(st[1])[0] == "mcall" and self.strip(st[1])[2] == "set" and len(self.strip(st[1])[3]) == 2 \
@@ -2140,6 +2237,44 @@ class Gen:
                         raise Unsupported("out argument that is neither a local nor a field of a local")
                     return go(i + 1, env2)
                 return self.tr(s[3], env, kout, ret)
+            if s[0] == "let" and self.strip(s[3])[0] == "closure" and all(isinstance(p_, str) for p_ in self.strip(s[3])[1]):
+                # `let f = |x| { .. };` — a local function: remembered, and expanded where it is called
+                return go(i + 1, dict(env, **{s[1]: ("", "Closure"), "$cl:" + s[1]: (self.strip(s[3]), "Closure")}))
+            if s[0] == "continue":
+                if getattr(self, "continue_k", None) is None:
+                    raise Unsupported("continue outside a translated for loop")
+                return self.continue_k(env)
+            if s[0] == "expr" and self.strip(s[1])[0] == "match" and len(self.strip(s[1])[2]) == 2 \
+                    and self.strip(s[1])[2][0][0][0] == "some" and len(self.strip(s[1])[2][0][0]) == 3 and self.strip(s[1])[2][1][0][0] == "wild":
+                # `match o { Some(x) if guard => A, _ => B }` as a statement:
+                # `if let Some(x) = o { if guard { A } else { B } } else { B }`
+                m_ = self.strip(s[1])
+                (_, nm_, guard_), a_ = m_[2][0]
+                b_ = m_[2][1][1]
+                blk = lambda x_: x_ if x_[0] == "block" else ("block", [("expr", x_)], None)
+                inner_ = ("block", [("expr", ("if", guard_, blk(a_), blk(b_)))], None)
+                stmts2 = list(stmts[i:])
+                stmts2[0] = ("expr", ("iflet", nm_, m_[1], inner_, blk(b_)))
+                return self.tr_stmts(stmts2, env, k_end, ret)
+            if s[0] == "expr" and self.strip(s[1])[0] == "mcall" and self.strip(s[1])[2] == "push_front" and len(self.strip(s[1])[3]) == 1 \
+                    and self.strip(self.strip(s[1])[1])[0] == "var" and env.get(self.strip(self.strip(s[1])[1])[1], ("", ""))[1].startswith("Vec<"):
+                vn = self.strip(self.strip(s[1])[1])[1]
+                old_, vt_ = env[vn]
+                def kpf(a, t):
+                    if vt_ == "Vec<?>":
+                        return go(i + 1, dict(env, **{vn: (f"({a} :: {old_})", f"Vec<{t}>")}))
+                    return go(i + 1, dict(env, **{vn: (f"({as_nat(a, t) if vt_[4:-1] in NATTY else a} :: {old_})", vt_)}))
+                return self.tr(self.strip(s[1])[3][0], env, kpf, ret)
+            if s[0] == "expr" and self.strip(s[1])[0] == "mcall" and self.strip(s[1])[2] == "append" and len(self.strip(s[1])[3]) == 1 \
+                    and self.strip(self.strip(s[1])[1])[0] == "var" and env.get(self.strip(self.strip(s[1])[1])[1], ("", ""))[1].startswith("Vec<"):
+                # `v.append(&w);` on a local vector, `w` computed
+                vn = self.strip(self.strip(s[1])[1])[1]
+                old_, vt_ = env[vn]
+                def kapv(a, t):
+                    if not t.startswith("Vec<"):
+                        raise Unsupported("append of " + t)
+                    return go(i + 1, dict(env, **{vn: (f"({old_} ++ {a})", vt_ if vt_ != "Vec<?>" else t)}))
+                return self.tr(self.strip(s[1])[3][0], env, kapv, ret)
             if s[0] == "break":
                 if getattr(self, "break_k", None) is None:
                     raise Unsupported("break outside a translated for loop")
@@ -2598,6 +2733,8 @@ class Gen:
                         loc = {x[1] for x in stmts_ if x[0] == "let"}
                         return self.assigned_vars(stmts_, set()) - loc
                     oa_ = outer_assigned(tb[1])
+                    if eb is not None and self.as_stmts(eb)[0] == "block":
+                        oa_ = oa_ | outer_assigned(self.as_stmts(eb)[1])     # both branches may re-bind outer locals
                     def after(env2):
                         # the continuation is emitted once per branch, so each branch carries its own values of
                         # the outer variables it assigned
@@ -2622,7 +2759,7 @@ class Gen:
                             none_c = go(i + 1, env)
                         else:
                             eb_ = self.as_stmts(eb)
-                            if eb_[0] != "block" or eb_[2] is not None or outer_assigned(eb_[1]):
+                            if eb_[0] != "block" or eb_[2] is not None:
                                 raise Unsupported("else of an if-let statement")
                             none_c = self.tr_stmts(eb_[1], env, after, ret)
                         return f"(optCase {a}\n (fun {nb} =>\n {some_c})\n ({none_c}))"
@@ -2670,6 +2807,8 @@ class Gen:
                 return ("block", b[1] + [("expr", b[2])], None)
             if t_[0] == "match" and any(p_[0] == "vstruct" for p_, _ in t_[2]):
                 return ("block", b[1] + [("expr", b[2])], None)
+            if t_[0] == "match" and len(t_[2]) == 2 and t_[2][0][0][0] == "some" and len(t_[2][0][0]) == 3 and t_[2][1][0][0] == "wild":
+                return ("block", b[1] + [("expr", b[2])], None)     # `match o { Some(x) if g => A, _ => B }` for its effects
             if t_[0] == "iflet" and t_[4] is None and t_[3][0] == "block" and self.as_stmts(t_[3])[2] is None:
                 # a trailing `if let Some(x) = v { statements }` without else: a statement
                 return ("block", b[1] + [("expr", b[2])], None)
@@ -2797,7 +2936,7 @@ class Gen:
             # auxiliary result is `some r` when the body returned `r` from the FUNCTION, `none` at the end
             self.loops += 1
             name = f"{self.cur_ns}.{self.cur_fn}.loop{self.loops}"
-            others = [v for v in sorted(env) if not v.startswith("$") and not env[v][1].startswith("Key:") and not (env[v][1].startswith("Client:") and not env[v][0])]
+            others = [v for v in sorted(env) if not v.startswith("$") and not env[v][1].startswith("Key:") and env[v][1] != "Closure" and not (env[v][1].startswith("Client:") and not env[v][0])]
             penv = {v: (v + "_", env[v][1]) for v in others}
             if "$st" in env:
                 penv["$st"] = ("st_", "Store")
@@ -2820,7 +2959,7 @@ class Gen:
             return (f"(Comp.bind ({name}{ev} {cl} {stp(env)}{' '.join(env[v_][0] for v_ in others)}) fun {r} =>\n"
                     f" (optCase {r}\n (fun {v} => Comp.ok {v})\n ({k_after(env)})))")
         unit_loop = not muts and not carry_st     # a loop run for its panics only (`for t in ts { if bad(t) { panic } }`)
-        others = [v for v in sorted(env) if v not in muts and not v.startswith("$") and not env[v][1].startswith("Key:") and not (env[v][1].startswith("Client:") and not env[v][0])]
+        others = [v for v in sorted(env) if v not in muts and not v.startswith("$") and not env[v][1].startswith("Key:") and env[v][1] != "Closure" and not (env[v][1].startswith("Client:") and not env[v][0])]
         self.loops += 1
         name = f"{self.cur_ns}.{self.cur_fn}.loop{self.loops}"
         params = muts + others
@@ -2858,13 +2997,16 @@ class Gen:
             benv = dict(penv, **{var: (var + "_", elt)})
             hd = var + "_"
         saved_break = getattr(self, "break_k", None)
+        saved_cont = getattr(self, "continue_k", None)
         self.break_k = lambda en: f"Comp.ok {tup(en) if not unit_loop else '()'}"     # `break`: the loop ends with the current values
+        self.continue_k = again                                                        # `continue`: on to the next element
         if early:
             self.ret_wrap = lambda x: f"(Sum.inr {x})"
         try:
             code = self.tr_stmts(body[1], benv, again, ret)
         finally:
             self.break_k = saved_break
+            self.continue_k = saved_cont
             if early:
                 self.ret_wrap = None
         self.aux.append(f"def {name} {'(envr : ' + self.cur_ns + '.Reads) ' if rd else ''}(xs_ : List {self.lean_ty(elt)}) {plist} : Comp ({rty}) :=\n"
@@ -3191,6 +3333,13 @@ READS_OWN = {"Ownable": {"ledger_sequence": "u32", "min_temp_ttl": "u32", "max_t
 FILES_OWN = [("Ownable", "packages/access/src/role_transfer/storage.rs", ["transfer_role", "accept_transfer"]),
              ("Ownable", "packages/access/src/ownable/storage.rs",
               ["get_owner", "enforce_owner_auth", "transfer_ownership", "accept_ownership", "renounce_ownership"])]
+STORE_CR = {"Rules": {"Meta": (["u32"], "MetaS"), "Signers": (["u32"], "Vec<Signer>"), "Policies": (["u32"], "Vec<Address>"),
+                      "Ids": (["Val"], "Vec<u32>")}}
+STRUCTS_CR = {"MetaS": [("name", "Val"), ("context_type", "Val"), ("valid_until", "Option<u32>")],
+              "ContextRule": [("id", "u32"), ("context_type", "Val"), ("name", "Val"), ("signers", "Vec<Signer>"), ("policies", "Vec<Address>"),
+                              ("valid_until", "Option<u32>")]}
+READS_CR = {"Rules": {"ledger_sequence": "u32"}}
+FILES_CR = [("Rules", "packages/accounts/src/smart_account/storage.rs", ["get_context_rule", "get_valid_context_rules"])]
 STORE_CLM = {"Claims": {"Claim": (["Bytes32"], "IdClaim"), "ClaimsByTopic": (["u32"], "Vec<Bytes32>")}}
 STRUCTS_CLM = {"IdClaim": [("topic", "u32"), ("scheme", "u32"), ("issuer", "Address"), ("signature", "Bytes"), ("data", "Bytes"), ("uri", "Val")]}
 READS_CLM = {"Claims": {"current_contract_address": "Address",
@@ -3890,6 +4039,14 @@ def main():
             txt = translate(repo, FILES_CTIF, reads={"TopicsF": {}}, store=STORE_CTIF)
         elif "--topics" in sys.argv:
             txt = translate(repo, FILES_CTI, reads={"Topics": {}}, store=STORE_CTI)
+        elif "--context-rules" in sys.argv:
+            # `ContextRuleType` (Default / CallContract(addr) / CreateContract(hash)) is an opaque identifier; the
+            # identifier of `Default` is 0 (no other rule type has it)
+            HELPER_GETTERS.add("get_persistent_entry")
+            OPAQUE_CONSTS[("ContextRuleType", "Default")] = (0, "Val")
+            txt = translate(repo, FILES_CR, reads=READS_CR, structs=STRUCTS_CR, store=STORE_CR,
+                            tymaps={"packages/accounts/src/smart_account/storage.rs": {"ContextRuleType": "Val", "String": "Val", "Meta": "MetaS"}},
+                            rename_types={"ContextRule": "Rules.ContextRule"})
         elif "--claims" in sys.argv:
             STRUCT_ALIAS["Claim"] = "IdClaim"
             txt = translate(repo, FILES_CLM, reads=READS_CLM, structs=STRUCTS_CLM, store=STORE_CLM,
